@@ -41,6 +41,14 @@ structure GenCfg where
       `if len(path) < d+2 { return nil }` returns before the element's own `len(path) == d+1` branch:
       Length/Capacity of a collection held in a map or slice store 0. -/
   lcElemStopZero : Bool := true
+  /-- `true` (original emitter): in DeepEqual the nil test emitted for a pointer-to-scalar (or `*[]byte`)
+      struct field looks at the parent's variables: nil-ness of such fields is never compared and a nil
+      field is dereferenced (panic). -/
+  deqPtrLeafNilUnchecked : Bool := true
+  /-- `true` (original emitter): the nil-ness test of a pointer-typed struct field is emitted before
+      (outside) the `DEQMustCheck` wrapper, so an excluded / unlisted field still decides the result
+      through its nil-ness. -/
+  deqNilBeforeMustCheck : Bool := true
 deriving Repr, Inhabited
 
 /-- The configuration that mirrors the tree as it is (flags flip when a `fix:` commit lands). -/
@@ -55,6 +63,8 @@ def GenCfg.fixed : GenCfg where
   lcScalarSliceZero := false
   lcStructStopPanics := false
   lcElemStopZero := false
+  deqPtrLeafNilUnchecked := false
+  deqNilBeforeMustCheck := false
 
 /-- After the nested block of a non-basic node: the "special case to take value by pointer"
 (compiler.go:964-975). Not emitted for the root (`v != "x"`). -/
